@@ -3,6 +3,8 @@ import Martian.Vdr
 import Martian.VdrFs
 import Martian.VdrBuild
 import Martian.VdrVal
+import Martian.VdrEval
+import Martian.VdrHyp
 
 /-! Line-protocol handler for properties C04 / C14 (the VDR model).
 
@@ -91,6 +93,7 @@ def parseEv (s : String) : Option Ev :=
   | 'd' :: r => some (.nodeDone (String.ofList r))
   | 'f' :: r => some (.nodeFailed (String.ofList r))
   | 'r' :: r => some (.nodeReset (String.ofList r))
+  | ['R'] => some .restart
   | ['e'] => some .removeEmpty
   | ['c'] => some .cacheMap
   | ['k'] => some .kill
@@ -257,6 +260,16 @@ def parseVal : Nat → List String → Option (Val × List String)
     pure (.vcons (String.ofList kb) v m, r)
   | _, _ => none
 
+/-- recorded outputs: `v node out value … e` -/
+def parseEnv : Nat → List String → Option (List (Node × Arg × Val) × List String)
+  | 0, _ => none
+  | _ + 1, "e" :: r => some ([], r)
+  | f + 1, "v" :: n :: o :: r => do
+    let (x, r) ← parseVal (f + 1) r
+    let (m, r) ← parseEnv f r
+    pure ((n, o, x) :: m, r)
+  | _, _ => none
+
 def tokens (s : String) : List String := (s.splitOn " ").filter (· != "")
 
 def showTRefs (l : List TRef) : String :=
@@ -289,7 +302,20 @@ def handle (op : String) (args : List String) : Option String :=
     let (tree, r) ← parseTree (tk.length + 1) tk
     if !r.isEmpty then none
     let ops := opsOf tree
-    pure ("wf=" ++ boolStr (wfOps [] [] ops) ++ " " ++ showTabs (build ops))
+    pure ("wf=" ++ boolStr (wfOps [] [] ops) ++ " scoped=" ++ boolStr (scopedB [] tree).isSome ++ " " ++
+      showTabs (build ops))
+  | "reach", [e, env, v] => do
+    let te := tokens e
+    let tn := tokens env
+    let tv := tokens v
+    let (e, r1) ← parseBExp (te.length + 1) te
+    let (entries, r2) ← parseEnv (tn.length + 1) tn
+    let (v, r3) ← parseVal (tv.length + 1) tv
+    if !r1.isEmpty || !r2.isEmpty || !r3.isEmpty then none
+    let env : Env := fun n o => (entries.filter fun x => x.1 == n && x.2.1 == o).map (·.2.2)
+    let ok := reach env e
+    let miss := v.names.filter fun s => !ok.contains s
+    pure (if miss.isEmpty then "ok" else "missing=" ++ showPaths (miss.map String.toList).eraseDups)
   | "clean", [p] => do
     let p ← pathOfHex p
     pure (hexOfPath (cleanAbs p))
@@ -320,6 +346,9 @@ def handle (op : String) (args : List String) : Option String :=
       argNames := ← parseArgPaths names, argFiles := ← parseArgPaths files }
     let fa ← parseAssoc fargs
     let pn ← parseAssoc pnodes
+    let c : Cfg := { c with
+      initArgs := fa.map fun (a, hs) => (a, hs.map fun h => if h == "~" then none else some h),
+      initPost := pn }
     let cache ← parseCache cache
     let disk ← parseDisk disk
     let (cnt, sz) ← match rep.splitOn "|" with
@@ -331,7 +360,10 @@ def handle (op : String) (args : List String) : Option String :=
       ran := (if ran == "." then [] else ran.toList.map fun ch => ch.toNat - 48),
       report := { count := cnt, size := sz }, doneNodes := idList done }
     let evs ← parseEvs evs
-    pure (showState (run c s evs))
+    -- the decidable hypotheses of the theorems, evaluated on the replayed state
+    let b := fun (x : Bool) => if x then "1" else "0"
+    pure (showState (run c s evs) ++ " hyp=" ++ b (cfgOKB c s) ++ b (pathKindsB s.disk) ++ b (sepB s.disk) ++
+      b (linksTopB s.disk))
   | "mergeevents", [evs] => do
     let evs ← parseEvents evs
     pure (showEvents (mergeEvents evs))
